@@ -604,6 +604,26 @@ class RT:
 
             fq = SymSeq(elem, n, name=f"filter({q.name})")
             fq.source = q
+            # completeness: if some source position satisfies the condition, the result is not empty
+            jv = tm.Var(c.fresh_name("j!bound"), INT)
+            n0 = len(c.pc)
+            ob0, tr0, cnt0 = len(c.obligations), len(c.trace), dict(c.counters)
+            try:
+                c.nofork += 1
+                xv = q.elem(jv)
+                cv = B(cond(xv))
+                side = c.pc[n0:]
+                del c.pc[n0:]
+                body = tm.Implies(tm.And(tm.Le(tm.mk_int(0), jv), tm.Lt(jv, q.length), *side, cv),
+                                  tm.Ge(n, tm.mk_int(1)))
+                c.pc.append(tm.ForAll([(jv.s, INT)], body))
+            except sym.Speculation:
+                del c.pc[n0:]
+            finally:
+                c.nofork -= 1
+                # obligations / events produced while building the quantified fact belong to no real element
+                del c.obligations[ob0:]
+                del c.trace[tr0:]
             return fq
         if kind == "set":
             return _set_comp(f, q, cond)
@@ -978,6 +998,20 @@ def v_max(*args, **kw):
     return builtins.max(*args, **kw)
 
 
+def v_sum(it, start=0):
+    it = sym.resolve(it)
+    if isinstance(it, SymSeq):
+        c = cur()
+        j = c.fresh(c.fresh_name("sum.probe"), INT)
+        n0 = len(c.pc)
+        v = it.elem(j)
+        del c.pc[n0:]
+        if isinstance(v, int) and not isinstance(v, bool):
+            return wrap_int(tm.Add(tm.Mul(tm.mk_int(v), it.length), I(start)))
+        raise Unsupported("sum() over a symbolic sequence of non-constant terms")
+    return builtins.sum(it, start)
+
+
 def v_any(it):
     if hasattr(it, "__symany__"):
         return it.__symany__()
@@ -1112,7 +1146,7 @@ class _NoLog:
 BUILTIN_OVERRIDES = dict(
     len=v_len, sorted=v_sorted, isinstance=v_isinstance, int=v_int, bool=v_bool, str=v_str,
     bytes=v_bytes, min=v_min, max=v_max, any=v_any, all=v_all, dict=v_dict, set=v_set, list=v_list,
-    print=v_print, getattr=v_getattr, issubclass=v_issubclass,
+    print=v_print, getattr=v_getattr, issubclass=v_issubclass, sum=v_sum,
 )
 v_type.__vc_real__ = type
 BUILTIN_OVERRIDES["type"] = v_type
